@@ -13,16 +13,16 @@ exception classes.  The model mirrors the code AFTER the fix commits of fix/mk:
 
 What is NOT mirrored statement by statement (abstracted to exactly the facts the checks use):
   * `Cell.from_boc(proof)` — the argument `roots` is its result (BoC decoding is C03/C05's business);
-  * the TL-B parsing `ShardStateUnsplit.deserialize(...)`, `.accounts[0][key]`, `.cell[0]` — the checks only use
-    WHICH cell below the proved state root is the account cell of the address; that is the parameter
-    `locate : PCell → Bytes → Option PCell` (`none` = any exception on the way: KeyError, malformed TL-B,
-    pruned dictionary path ...).  `locateAccount` below is a concrete lookup-only instance (block.tlb layout)
-    used by the driver; it agrees with the library whenever the library's full deserialisation succeeds;
+  * of the TL-B parsing `ShardStateUnsplit.deserialize(...)`, `.accounts[0][key]`, `.cell[0]` (Model/Locate.lean,
+    `locateAccount`: state header fields, `load_hashmap_aug_e` over the whole dictionary, `DepthBalanceInfo`,
+    `ShardAccount`, the `^[…]` reference group, `custom`) two sub-parsers remain Boolean parameters (`Opaque`):
+    `Account.deserialize` on an account cell whose first bit is 1 and `McStateExtra.deserialize` on an ordinary cell;
   * `Block.deserialize(...).info` comparison and the `ShardHashes` lookup of `check_shard_proof` — Boolean
     parameters/functions of the same kind.
 -/
 import TonVerif.Model.Cell
 import TonVerif.Model.PCell
+import TonVerif.Model.Locate
 namespace TonVerif.Model
 
 mutual
@@ -71,8 +71,9 @@ def checkBlockHeaderProofState (root : PCell) (blockHash : Bytes) : Option Bytes
 
 /-- `check_account_proof(proof, shrd_blk, address, account_state_root)`.
 `roots = Cell.from_boc(proof)`, `blkRootHash = shrd_blk.root_hash`, `addr = address.hash_part`,
-`locate st addr` = `ShardStateUnsplit.deserialize(st.begin_parse()).accounts[0][int(addr)].cell[0]`. -/
-def checkAccountProof (locate : PCell → Bytes → Option PCell) (roots : List PCell) (blkRootHash : Bytes)
+`locateAccount O st addr` (Model/Locate.lean) = `ShardStateUnsplit.deserialize(st.begin_parse()).accounts[0][int(addr)].cell[0]`;
+`O` = the verdicts of the two sub-parsers that are not modelled. -/
+def checkAccountProof (O : Opaque) (roots : List PCell) (blkRootHash : Bytes)
     (addr : Bytes) (state : PCell) : Bool :=
   match roots with
   | [p0, p1] =>                                             -- 'expected 2 root cells'
@@ -88,7 +89,7 @@ def checkAccountProof (locate : PCell → Bytes → Option PCell) (roots : List 
     | some st =>
     if st.info.getHash 0 != some stateHash then false else  -- 'state hashes mismatch'
     if !checkProof p1 stateHash then false else
-    match locate st addr with
+    match locateAccount O st addr with
     | none => false
     | some acc => acc.info.getHash 0 == some state.info.hash  -- 'account state proof invalid'
   | _ => false
@@ -116,100 +117,5 @@ def checkShardProof (blockInfoOk : PCell → Bool) (findShard : PCell → Bool) 
           if !checkProof s stateHash then false else findShard st
     | _, _ => false
   | _ => false
-
-/-! ### a concrete `locate`: lookup in `ShardStateUnsplit` (block.tlb), used by the driver -/
-
-/-- `HmLabel ~l n`: returns (label bits, rest) ; `none` = slice underflow -/
-def readLabel (bits : Bits) (n : Nat) : Option (Bits × Bits) :=
-  match bits with
-  | false :: rest =>                       -- hml_short: unary length
-    let len := (rest.takeWhile id).length
-    let r1 := rest.drop len
-    match r1 with
-    | false :: r2 => if r2.length < len then none else some (r2.take len, r2.drop len)
-    | _ => none
-  | true :: false :: rest =>               -- hml_long
-    let w := bitLength n                   -- `(#<= 0)`: a zero-width field reads as 0 (fix 602ccc8)
-    if rest.length < w then none else
-    let len := natOfBits (rest.take w)
-    let r1 := rest.drop w
-    if r1.length < len then none else some (r1.take len, r1.drop len)
-  | true :: true :: v :: rest =>           -- hml_same
-    let w := bitLength n                   -- `(#<= 0)`: a zero-width field reads as 0 (fix 602ccc8)
-    if rest.length < w then none else
-    let len := natOfBits (rest.take w)
-    some (List.replicate len v, rest.drop w)
-  | _ => none
-
-/-- skip `DepthBalanceInfo` (5 bits + Grams + ExtraCurrencyCollection): rest of bits and number of refs consumed -/
-def skipDepthBalance (bits : Bits) : Option (Bits × Nat) :=
-  if bits.length < 9 then none else
-  let l := natOfBits ((bits.drop 5).take 4)
-  let r := bits.drop (9 + 8 * l)
-  if bits.length < 9 + 8 * l then none else
-  match r with
-  | false :: r' => some (r', 0)
-  | true :: r' => some (r', 1)
-  | [] => none
-
-/-- walk the `HashmapAug 256` from `c` with `n` key bits left -/
-def lookupAug : Nat → PCell → Nat → Bits → Option PCell
-  | 0, _, _, _ => none
-  | fuel+1, c, n, key =>
-    if c.info.kind != kOrdinary then none else
-    match readLabel c.info.bits n with
-    | none => none
-    | some (lbl, rest) =>
-      if lbl.length > n then none else
-      if key.take lbl.length != lbl then none else
-      let key' := key.drop lbl.length
-      let m := n - lbl.length
-      if m == 0 then
-        -- leaf: extra, then ShardAccount = ^Account bits256 uint64 ; `.cell[0]` = first ref after the extra's
-        match skipDepthBalance rest with
-        | none => none
-        | some (r, k) => if r.length < 320 then none else c.refs[k]?
-      else
-        match key' with
-        | [] => none
-        | b :: key'' =>
-          if c.refs.length < 2 then none else
-          match c.refs[if b then 1 else 0]? with
-          | none => none
-          | some ch => lookupAug fuel ch (m - 1) key''
-
-/-- can `DepthBalanceInfo.deserialize` read `split_depth:(#<= 30) balance:CurrencyCollection` from these bits / remaining refs?
-(`load_uint(5)`, `load_coins`, the extra-currency Maybe-ref; the referenced dictionary is assumed parseable) -/
-def readsDepthBalance (bits : Bits) (nrefs : Nat) : Bool :=
-  if bits.length < 9 then false else
-  let len := natOfBits ((bits.drop 5).take 4)
-  if bits.length < 9 + 8 * len then false else
-  match bits.drop (9 + 8 * len) with
-  | [] => false
-  | b :: _ => if b then decide (nrefs ≥ 1) else true
-
-/-- `ShardStateUnsplit.deserialize(st.begin_parse()).accounts[0][int(addr)].cell[0]` as a lookup
-(valid for states without `custom`; everything off the path is assumed parseable). -/
-def locateAccount (st : PCell) (addr : Bytes) : Option PCell :=
-  let bits := st.info.bits
-  if st.info.kind != kOrdinary then none else
-  if bits.length < 362 then none else
-  if bits.take 32 != bytesToBits [0x90, 0x23, 0xaf, 0xe2] then none else
-  if (bits.drop 64).take 2 != [false, false] then none else          -- ShardIdent tag
-  if bits.getD 361 false then none else                                -- custom present: not modelled
-  if st.refs.length < 3 then none else
-  match st.refs[1]? with
-  | none => none
-  | some accs =>
-    if accs.info.kind != kOrdinary then none else
-    match accs.info.bits with
-    | true :: rest =>
-      match accs.refs[0]? with
-      | none => none
-      | some root =>
-        -- `ahme_root$1 root:^(HashmapAug 256 ShardAccount DepthBalanceInfo) extra:DepthBalanceInfo`: since fix f2933e1
-        -- `load_hashmap_aug_e` reads the top-level extra after the root, so it must be readable
-        if readsDepthBalance rest (accs.refs.length - 1) then lookupAug 300 root 256 (bytesToBits addr) else none
-    | _ => none
 
 end TonVerif.Model
